@@ -13,24 +13,46 @@ from vf import probes
 
 ID = 'C13'
 LEVEL = 'exploration'
-RULE = ('callable kinds (function, lambda, builtin sum, callable instance, functools.partial) and class shapes (__init__, __new__, both, neither, custom '
-        'metaclass with __call__, __slots__, collections.namedtuple, typing.NamedTuple, ABC subclass, class with registered methods) x {configurable, '
-        'register, external_configurable} x decorator/call form x name/module overrides x access path (returned object, original object, selector, '
-        'scoped selector, @reference, scoped @reference); oracles: original untouched and direct calls receive nothing (register/external), the '
-        'registry version receives bindings, metadata/signature preserved, subclass/instance/type identity, pickle round trip whenever the original '
-        'pickles, rejected registrations leave the registry unchanged, re-registration only inside interactive mode (block exit by return or '
-        'exception). distinct = (kind, api, form, overrides, access path)')
+RULE = ('callable kinds (function, lambda, builtin sum, method descriptor str.split, slot wrapper dict.__init__, method-wrapper {}.__init__, callable '
+        'instance, functools.partial) and class shapes (__init__, __new__, both, neither, custom '
+        'metaclass with __call__, __slots__, collections.namedtuple, typing.NamedTuple, ABC subclass, class with registered methods, class holding a '
+        'registered plain function as attribute) x {configurable, '
+        'register, external_configurable, config text under dynamic registration} x decorator/call form x name/module overrides x access path (returned '
+        'object, original object, selector, scoped selector, @reference, scoped @reference); oracles: original untouched and direct calls receive nothing '
+        '(register/external/dynamic; re-checked after the registry versions were used and inside an active scope), the '
+        'registry version receives bindings (registered methods of a class through its instances), metadata/signature preserved, every class version '
+        '(scoped ones too) is a subclass with the same name/module/doc, instance/type identity, pickle round trip whenever the original '
+        'pickles, rejected registrations (5 kinds x function/class/class with registered methods x 3 APIs, outside and inside interactive mode) leave '
+        'the registry and the target unchanged, re-registration (function or class, 3 APIs) only inside interactive mode (block exit by return, '
+        'Exception, KeyboardInterrupt, SystemExit, GeneratorExit). distinct = (kind, api, form, overrides, access path)')
 TIERS = {
     'quick': {'workers': 8, 'cases': 1750, 'timeout': 600},
     'thorough': {'workers': 16, 'cases': 9000, 'timeout': 3000},
 }
 KINDS = ['function', 'lambda', 'builtin', 'callable-instance', 'partial', 'cls-init', 'cls-new', 'cls-both', 'cls-neither', 'cls-meta', 'cls-slots',
-         'cls-namedtuple', 'cls-typing-namedtuple', 'cls-abc', 'cls-methods', 'cls-final', 'cls-meta-kwargs']
+         'cls-namedtuple', 'cls-typing-namedtuple', 'cls-abc', 'cls-methods', 'cls-final', 'cls-meta-kwargs',
+         'method-descriptor', 'wrapper-descriptor', 'method-wrapper', 'cls-helper-attr']
+# kinds whose original carries no usable __module__ / __name__ of its own: registered under an explicit name (and module)
+NAMELESS_KINDS = ('builtin', 'partial', 'callable-instance', 'method-descriptor', 'wrapper-descriptor', 'method-wrapper')
+UNSUBCLASSABLE = ('cls-final', 'cls-meta-kwargs')
+REJECTS = ['invalid-name', 'invalid-module', 'different-object-same-name', 'unknown-in-list', 'both-lists']
+REJECT_TARGETS = ['function', 'class', 'class-with-registered-method']
+INTERACTIVE = ['context-manager', 'enter-exit', 'exit-by-exception', 'exit-by-KeyboardInterrupt', 'exit-by-SystemExit', 'exit-by-GeneratorExit']
+APIS = ['configurable', 'register', 'external']
+# dynamic registration (config text `import m` / `m.K.x = 3`) registers like gin.register; kinds reachable as a module attribute with a parameter
+DYNAMIC_KINDS = ('function', 'lambda', 'callable-instance', 'partial', 'cls-init', 'cls-new', 'cls-both', 'cls-meta', 'cls-slots', 'cls-namedtuple',
+                 'cls-typing-namedtuple', 'cls-abc', 'cls-methods', 'cls-helper-attr')
+ENABLE_DYNAMIC_REGISTRATION = True
 REQUIRED_BUCKETS = (['kind:' + k for k in KINDS] + ['api:configurable', 'api:register', 'api:external', 'form:decorator', 'form:call', 'override:name',
                     'override:module', 'override:dotted-name', 'path:returned', 'path:object', 'path:selector', 'path:scoped-selector', 'path:reference',
                     'path:scoped-reference', 'pickle:roundtrip', 'direct-call:no-injection', 'reject:invalid-name', 'reject:invalid-module',
                     'reject:different-object-same-name', 'reject:unknown-in-list', 'reject:both-lists', 'interactive:context-manager',
-                    'interactive:enter-exit', 'interactive:exit-by-exception', 'type-identity', 'reject:class-with-registered-method'])
+                    'interactive:enter-exit', 'interactive:exit-by-exception', 'type-identity', 'reject:class-with-registered-method',
+                    'interactive:exit-by-KeyboardInterrupt', 'interactive:exit-by-SystemExit', 'interactive:exit-by-GeneratorExit',
+                    'interactive-target:class', 'interactive-api:configurable', 'interactive-api:external',
+                    'reject:inside-interactive-mode', 'scoped-class-version:metadata', 'registered-method:through-registry-version',
+                    'recheck:after-registry-use', 'recheck:inside-active-scope', 'metadata:non-function-callable', 'api:dynamic-registration'] +
+                    ['reject-target:' + t for t in REJECT_TARGETS])
 ORACLE_COUNTERS = ['oracle_evals', 'registrations', 'rejections_checked']
 _n = itertools.count(1)
 _S = {}
@@ -45,8 +67,26 @@ def setup(ctx):
                              'kwonly': [], 'varkw': False})
 
 
+class Spec:
+  """One original: the object, the parameter bound through gin, how to call it and what a call must deliver."""
+
+  def __init__(self, orig, param, extract, is_class, explicit, call=None, vals=(41, 42), expect=None, direct=0, shared=False):
+    self.orig, self.param, self.extract, self.is_class, self.explicit = orig, param, extract, is_class, explicit
+    self.call = call or (lambda fn: fn())
+    self.vals = vals                      # values bound at the root and in scope sc/ope
+    self.expect = expect or (lambda v: v)  # bound value -> what extract(call(version)) must give
+    self.direct = direct                  # what extract(call(original)) gives without injection
+    self.shared = shared                  # the same object in every case (a builtin): no identity-based lookups
+
+  def __iter__(self):    # (original, param, extract, is_class, needs_explicit_name)
+    return iter((self.orig, self.param, self.extract, self.is_class, self.explicit))
+
+  def __getitem__(self, i):
+    return tuple(self)[i]
+
+
 def make_original(kind, name):
-  """Returns (original, param name or None, extract(result)->value of param, is_class, needs_explicit_name)."""
+  """Returns a Spec (iterable as (original, param name or None, extract(result)->value of param, is_class, needs_explicit_name))."""
   mod = _S['mod']
   g = mod.__dict__
   g.setdefault('abc', abc)
@@ -54,18 +94,37 @@ def make_original(kind, name):
   g.setdefault('typing', typing)
   if kind == 'function':
     exec('def %s(x=0, y="d"):\n  """doc of %s"""\n  return ("f", x, y)\n' % (name, name), g)
-    return g[name], 'x', lambda r: r[1], False, False
+    return Spec(g[name], 'x', lambda r: r[1], False, False)
   if kind == 'lambda':
     exec('%s = lambda x=0: ("lam", x)\n' % name, g)
-    return g[name], 'x', lambda r: r[1], False, True
+    return Spec(g[name], 'x', lambda r: r[1], False, True)
   if kind == 'builtin':
-    return sum, 'start', lambda r: r, False, True
+    return Spec(sum, 'start', lambda r: r, False, True, call=lambda fn: fn([1, 2]), expect=lambda v: v + 3, direct=3, shared=True)
+  if kind == 'method-descriptor':     # type(str.split): not a builtin function, no __module__
+    return Spec(str.split, 'sep', tuple, False, True, call=lambda fn: fn('a-b+c'), vals=('-', '+'),
+                expect=lambda v: tuple('a-b+c'.split(v)), direct=('a-b+c',), shared=True)
+  if kind == 'wrapper-descriptor':    # type(object.__init__): a slot wrapper; dict.__init__(d, x=..) stores x in d
+    box = {}
+
+    def call_wd(fn):
+      box.clear()
+      return fn(box)
+    return Spec(dict.__init__, 'x', lambda r: box.get('x', 0), False, True, call=call_wd, shared=True)
+  if kind == 'method-wrapper':        # type(object().__str__): a slot wrapper bound to an instance
+    box = {}
+    g[name] = box
+
+    def call_mw(fn):
+      box.clear()
+      return fn()
+    return Spec(box.__init__, 'x', lambda r: box.get('x', 0), False, True, call=call_mw)
   if kind == 'callable-instance':
-    exec('class %sC:\n  def __call__(self, x=0):\n    return ("inst", x)\n%s = %sC()\n' % (name, name, name), g)
-    return g[name], 'x', lambda r: r[1], False, True
+    exec('class %sC:\n  """doc of %sC"""\n  def __call__(self, x=0):\n    return ("inst", x)\n%s = %sC()\n' % (name, name, name, name), g)
+    return Spec(g[name], 'x', lambda r: r[1], False, True)
   if kind == 'partial':
     exec('def %s_base(a, x=0):\n  return ("part", a, x)\n' % name, g)
-    return functools.partial(g[name + '_base'], 'A'), 'x', lambda r: r[2], False, True
+    g[name] = functools.partial(g[name + '_base'], 'A')
+    return Spec(g[name], 'x', lambda r: r[2], False, True)
   if kind == 'cls-init':
     src = 'class %s:\n  """doc of %s"""\n  def __init__(self, x=0, y="d"):\n    self.x = x\n    self.y = y\n'
   elif kind == 'cls-new':
@@ -79,19 +138,19 @@ def make_original(kind, name):
     src = ('class %sMeta(type):\n  def __call__(cls, *a, **k):\n    o = super().__call__(*a, **k)\n    o.meta_called = True\n    return o\n'
            'class %s(metaclass=%sMeta):\n  """doc of %s"""\n  def __init__(self, x=0):\n    self.x = x\n') % (name, name, name, name)
     exec(src, g)
-    return g[name], 'x', lambda r: r.x, True, False
+    return Spec(g[name], 'x', lambda r: r.x, True, False)
   elif kind == 'cls-slots':
     src = 'class %s:\n  """doc of %s"""\n  __slots__ = ("x",)\n  def __init__(self, x=0):\n    self.x = x\n'
   elif kind == 'cls-namedtuple':
     exec('%s = collections.namedtuple(%r, ["x", "y"], defaults=[0, "d"])\n%s.__module__ = "vfc13mod"\n' % (name, name, name), g)
-    return g[name], 'x', lambda r: r.x, True, False
+    return Spec(g[name], 'x', lambda r: r.x, True, False)
   elif kind == 'cls-typing-namedtuple':
     src = 'class %s(typing.NamedTuple):\n  """doc of %s"""\n  x: int = 0\n  y: str = "d"\n'
   elif kind == 'cls-abc':
     src = ('class %sBase(abc.ABC):\n  @abc.abstractmethod\n  def go(self):\n    pass\n'
            'class %s(%sBase):\n  """doc of %s"""\n  def __init__(self, x=0):\n    self.x = x\n  def go(self):\n    return self.x\n') % (name, name, name, name)
     exec(src, g)
-    return g[name], 'x', lambda r: r.x, True, False
+    return Spec(g[name], 'x', lambda r: r.x, True, False)
   elif kind == 'cls-final':
     src = ('class %s:\n  \"\"\"doc of %s\"\"\"\n  def __init__(self, x=0):\n    self.x = x\n'
            '  def __init_subclass__(cls, **kw):\n    raise TypeError("this class must not be subclassed")\n')
@@ -100,22 +159,31 @@ def make_original(kind, name):
            '  def __init__(cls, name, bases, ns, *, flavour):\n    super().__init__(name, bases, ns)\n'
            'class %s(metaclass=%sMeta, flavour="x"):\n  \"\"\"doc of %s\"\"\"\n  def __init__(self, x=0):\n    self.x = x\n') % (name, name, name, name)
     exec(src, g)
-    return g[name], 'x', lambda r: r.x, True, False
+    return Spec(g[name], 'x', lambda r: r.x, True, False)
   elif kind == 'cls-methods':
     import gin
     src = 'class %s:\n  """doc of %s"""\n  def __init__(self, x=0):\n    self.x = x\n  def meth_%s(self, m=0):\n    return ("meth", m)\n'
     exec(src % (name, name, name), g)
     cls = g[name]
     gin.register(cls.__dict__['meth_' + name])
-    return cls, 'x', lambda r: r.x, True, False
+    return Spec(cls, 'x', lambda r: r.x, True, False)
+  elif kind == 'cls-helper-attr':
+    # a plain function known to gin that is merely stored on the class: not a method of it, so nothing needs overriding
+    import gin
+    src = ('def h_%s(a=0):\n  return ("helper", a)\n'
+           'class %s:\n  """doc of %s"""\n  h_%s = staticmethod(h_%s)\n  def __init__(self, x=0):\n    self.x = x\n')
+    exec(src % (name, name, name, name, name), g)
+    gin.register(g['h_' + name])
+    return Spec(g[name], 'x', lambda r: r.x, True, False)
   exec(src % (name, name), g)
   cls = g[name]
-  return cls, ('x' if kind != 'cls-neither' else None), (lambda r: r.x), True, False
+  return Spec(cls, ('x' if kind != 'cls-neither' else None), (lambda r: r.x), True, False)
 
 
 def snapshot(obj, is_class):
   if is_class:
-    return {k: v for k, v in vars(obj).items()}, obj.__bases__, type(obj)
+    # ('__slotnames__' is a cache copyreg stores on a class when this harness pickles an instance)
+    return {k: v for k, v in vars(obj).items() if k != '__slotnames__'}, obj.__bases__, type(obj)
   if isinstance(obj, types.FunctionType):
     return dict(vars(obj)), obj.__code__, obj.__defaults__, obj.__kwdefaults__, obj.__name__, obj.__doc__
   return (repr(type(obj)),)
@@ -136,11 +204,14 @@ def snap_equal(a, b):
 def iter_cases(ctx, rng, n):
   for i in range(n):
     kind = KINDS[i % len(KINDS)]
-    api = ['configurable', 'register', 'external'][(i // len(KINDS)) % 3]
+    api = APIS[(i // len(KINDS)) % 3]
     yield {'kind': kind, 'api': api, 'form': rng.choice(['decorator', 'call']), 'name_override': rng.choice([None, None, 'plain', 'dotted']),
            'module_override': rng.random() < 0.5, 'paths': rng.sample(['returned', 'object', 'selector', 'scoped-selector', 'reference', 'scoped-reference'], 3),
-           'reject': rng.choice(['invalid-name', 'invalid-module', 'different-object-same-name', 'unknown-in-list', 'both-lists', None]),
-           'interactive': rng.choice(['context-manager', 'enter-exit', 'exit-by-exception', None])}
+           'reject': rng.choice(REJECTS + [None]),
+           'reject_target': rng.choice(REJECT_TARGETS), 'reject_interactive': rng.random() < 0.4, 'reject_variant': rng.randrange(6),
+           'interactive': rng.choice(INTERACTIVE + [None, None, None, None]),
+           'interactive_api': rng.choice(APIS), 'interactive_target': rng.choice(['function', 'class']),
+           'again': rng.random() < 0.33, 'equal_callables': rng.random() < 0.5, 'dynamic': rng.random() < 0.2}
 
 
 def do_register(gin, api, form, orig, name, module, explicit_name, **lists):
@@ -155,13 +226,28 @@ def do_register(gin, api, form, orig, name, module, explicit_name, **lists):
   return dec(name, **kw)(orig)   # parametrised form
 
 
+def sig_of(obj):
+  try:
+    return inspect.signature(obj)
+  except (ValueError, TypeError):
+    return None
+
+
+def class_version_ok(ver, orig):
+  """A configurable version of a class is a class, a subclass of the original, with its name, module and docstring."""
+  return (inspect.isclass(ver) and issubclass(ver, orig) and ver.__name__ == orig.__name__ and ver.__module__ == orig.__module__ and
+          ver.__doc__ == orig.__doc__)
+
+
 def run_case(ctx, case):
   import gin
   gin.clear_config()
   n = next(_n)
   kind, api = case['kind'], case['api']
   base = 'T%d_%s' % (n, ctx.uid)
-  orig, param, extract, is_class, explicit = make_original(kind, base)
+  spec = make_original(kind, base)
+  orig, param, extract, is_class, explicit = spec
+  call = spec.call
   ctx.bucket('kind:' + kind)
   ctx.bucket('api:' + api)
   ctx.bucket('form:' + case['form'])
@@ -172,10 +258,10 @@ def run_case(ctx, case):
   elif case['name_override'] == 'dotted':
     name = 'dm.sub.N' + base
     ctx.bucket('override:dotted-name')
-  elif explicit or kind == 'builtin':
+  elif explicit:
     name = 'N' + base
   module = None
-  if case['module_override'] or (kind in ('builtin', 'partial', 'callable-instance') and name is not None and '.' not in name):
+  if case['module_override'] or (kind in NAMELESS_KINDS and name is not None and '.' not in name):
     module = 'c13.over'
     ctx.bucket('override:module')
   reg_name = name if name is not None else getattr(orig, '__name__', base)
@@ -188,13 +274,9 @@ def run_case(ctx, case):
   before = snapshot(orig, is_class)
   orig_name, orig_doc, orig_mod = getattr(orig, '__name__', None), getattr(orig, '__doc__', None), getattr(orig, '__module__', None)
   orig_qual = getattr(orig, '__qualname__', None)
-  orig_sig = None
-  try:
-    orig_sig = inspect.signature(orig)
-  except (ValueError, TypeError):
-    pass
+  orig_sig = sig_of(orig)
   ctx.count('registrations')
-  if kind in ('cls-final', 'cls-meta-kwargs') and api in ('register', 'external'):
+  if kind in UNSUBCLASSABLE and api in ('register', 'external'):
     # a class that cannot be subclassed dynamically: registration may be refused, but must never fall back to altering the class
     try:
       ret = do_register(gin, api, case['form'], orig, name, module, explicit)
@@ -210,21 +292,30 @@ def run_case(ctx, case):
       ctx.fp(kind, api, 'refused')
       return
   else:
-    ret = do_register(gin, api, case['form'], orig, name, module, explicit)
+    try:
+      ret = do_register(gin, api, case['form'], orig, name, module, explicit)
+    except Exception as e:  # pylint: disable=broad-except
+      ctx.check(False, 'registration-failed', 'gin.%s of a %s (%r) as %s raised %s: %s' % (api, kind, type(orig).__name__, full, type(e).__name__, str(e)[:200]))
+      return
   ctx.fp(kind, api, case['form'], case['name_override'], case['module_override'], tuple(sorted(case['paths'])), case['reject'], case['interactive'])
   ctx.sample({'kind': kind, 'api': api, 'registered_as': full, 'paths': case['paths']}, cap=4)
 
   # ---- what registration returns / leaves alone
   if api == 'register':
     ctx.check(ret is orig, 'register-returned-other-object', 'gin.register returned %r, not the original' % (ret,))
-  if api in ('register', 'external') and kind != 'builtin':
+  if api in ('register', 'external') and not spec.shared:
     ctx.check(snap_equal(before, snapshot(orig, is_class)), 'registration-altered-original',
               '%s altered the %s it was given: %r -> %r' % (api, kind, before, snapshot(orig, is_class)))
   conf = ret if api != 'register' else gin.get_configurable(orig)
-  if api == 'configurable' and not is_class and kind in ('function', 'lambda'):
-    ctx.check(conf.__name__ == orig_name and conf.__doc__ == orig_doc and inspect.signature(conf) == orig_sig,
-              'configurable-metadata-differs', 'gin.configurable result has name %r doc %r signature %s; original %r %r %s' %
-              (conf.__name__, conf.__doc__, inspect.signature(conf), orig_name, orig_doc, orig_sig))
+  if api == 'configurable' and not is_class:
+    # name (when the original has one), docstring and signature (when the original has one)
+    if kind not in ('function', 'lambda'):
+      ctx.bucket('metadata:non-function-callable')
+    name_ok = orig_name is None or getattr(conf, '__name__', None) == orig_name
+    conf_sig = sig_of(conf)
+    ctx.check(name_ok and getattr(conf, '__doc__', None) == orig_doc and (orig_sig is None or conf_sig == orig_sig),
+              'configurable-metadata-differs', 'gin.configurable result for a %s (%s) has name %r doc %r signature %s; original %r %r %s' %
+              (kind, type(orig).__name__, getattr(conf, '__name__', None), getattr(conf, '__doc__', None), conf_sig, orig_name, orig_doc, orig_sig))
   if api == 'configurable' and is_class and orig_sig is not None:
     ctx.check(conf.__name__ == orig_name and conf.__doc__ == orig_doc and inspect.signature(conf) == orig_sig,
               'configurable-metadata-differs' if kind != 'cls-neither' else 'configurable-class-without-constructor-changes-signature',
@@ -237,36 +328,39 @@ def run_case(ctx, case):
 
   # ---- bindings reach the registry version only
   if param is not None:
-    gin.bind_parameter((u'', full, param), 41)
-    gin.bind_parameter(('sc/ope', full, param), 42)
-
-    def call(fn):
-      if kind == 'builtin':
-        return fn([1, 2])
-      return fn()
-    base_expect = {41: 41, 42: 42}
-    if kind == 'builtin':
-      base_expect = {41: 44, 42: 45}
+    v_root, v_scoped = spec.vals
+    gin.bind_parameter((u'', full, param), v_root)
+    gin.bind_parameter(('sc/ope', full, param), v_scoped)
+    meth = None
+    if kind == 'cls-methods' and api in ('register', 'external'):
+      # the class's registered method was renamed to <class selector>.<method>; instances built through the registry's class version call the
+      # registry's version of the method (which receives bindings), instances of the original class call the original function
+      meth = 'meth_' + base
+      gin.bind_parameter((u'', full + '.' + meth, 'm'), 7)
+      gin.bind_parameter(('sc/ope', full + '.' + meth, 'm'), 8)
     if api in ('register', 'external'):
       ctx.bucket('direct-call:no-injection')
       direct = extract(call(orig))
-      ctx.check(direct == (3 if kind == 'builtin' else 0), 'direct-call-received-injected-value', 'direct call of the original %s saw %r' % (kind, direct))
+      ctx.check(direct == spec.direct, 'direct-call-received-injected-value', 'direct call of the original %s saw %r' % (kind, direct))
+      if meth:
+        got = getattr(orig(), meth)()
+        ctx.check(got == ('meth', 0), 'direct-call-received-injected-value', 'a registered method called on a directly built instance returned %r' % (got,))
     for path in case['paths']:
-      if kind in ('cls-final', 'cls-meta-kwargs') and path in ('scoped-selector', 'scoped-reference'):
+      if kind in UNSUBCLASSABLE and path in ('scoped-selector', 'scoped-reference'):
         continue  # a scoped version needs a dynamic subclass, which these shapes forbid (outside the stated shapes)
       ctx.bucket('path:' + path)
-      want = 41
+      want = v_root
       if path == 'returned':
         if api == 'register':
           continue
         obj = ret
       elif path == 'object':
-        obj = gin.get_configurable(orig if api != 'configurable' or not is_class else ret) if kind != 'builtin' else gin.get_configurable(full)
+        obj = gin.get_configurable(orig if api != 'configurable' or not is_class else ret) if not spec.shared else gin.get_configurable(full)
       elif path == 'selector':
         obj = gin.get_configurable(full)
       elif path == 'scoped-selector':
         obj = gin.get_configurable('sc/ope/' + full)
-        want = 42
+        want = v_scoped
       elif path == 'reference':
         gin.parse_config('c13cons.v = @%s' % full)
         obj = _S['cons'].conf()[0:0] or probes.RECORDER.log[-1].received['v']
@@ -274,16 +368,34 @@ def run_case(ctx, case):
         gin.parse_config('c13cons.v = @sc/ope/%s' % full)
         _S['cons'].conf()
         obj = probes.RECORDER.log[-1].received['v']
-        want = 42
+        want = v_scoped
+      if is_class:
+        if want == v_scoped:
+          ctx.bucket('scoped-class-version:metadata')
+        ctx.check(class_version_ok(obj, orig), 'configurable-class-metadata',
+                  'the version of a %s class reached via %s is %r (class=%s, subclass of the original=%s, name %r module %r doc %r; original %r %r %r)' % (
+                      kind, path, obj, inspect.isclass(obj), inspect.isclass(obj) and issubclass(obj, orig), getattr(obj, '__name__', None),
+                      getattr(obj, '__module__', None), getattr(obj, '__doc__', None), orig_name, orig_mod, orig_doc))
       try:
         res = call(obj)
       except Exception as e:  # pylint: disable=broad-except
         ctx.check(False, 'registry-version-call-failed', '%s/%s via %s raised %s: %s' % (kind, api, path, type(e).__name__, str(e)[:200]))
         continue
       got = extract(res)
-      ctx.check(got == base_expect[want], 'registry-version-not-injected', '%s/%s via %s received %r, bound value %r' % (kind, api, path, got, base_expect[want]))
+      ctx.check(got == spec.expect(want), 'registry-version-not-injected', '%s/%s via %s received %r, bound value %r' % (kind, api, path, got, spec.expect(want)))
       if is_class:
         ctx.check(isinstance(res, orig), 'instance-not-of-original-class', '%s via %s built a %r' % (kind, path, type(res)))
+        if meth:
+          ctx.bucket('registered-method:through-registry-version')
+          try:
+            mgot = getattr(res, meth)()
+          except Exception as e:  # pylint: disable=broad-except
+            mgot = 'raised %s: %s' % (type(e).__name__, str(e)[:200])
+          # (whether a method of an instance built through a *scoped* class version runs in that scope is not pinned down: there, the
+          # scope's value and the root value both count as injected)
+          m_ok = [('meth', 7)] if want == v_root else [('meth', 8), ('meth', 7)]
+          ctx.check(mgot in m_ok, 'registered-method-not-injected',
+                    'registered method called on an instance built via %s (%s) returned %r, bound value %r' % (path, api, mgot, m_ok[0][1]))
         if kind != 'cls-methods':
           ctx.bucket('type-identity')
           ctx.check(type(res) is orig, 'instance-type-not-exactly-original', '%s/%s via %s: type(instance) is %r' % (kind, api, path, type(res)))
@@ -301,13 +413,43 @@ def run_case(ctx, case):
               ctx.check(False, 'instance-does-not-pickle', '%s/%s via %s: instance does not pickle (%s) although the original does' % (kind, api, path, e))
         if kind == 'cls-meta':
           ctx.check(getattr(res, 'meta_called', False), 'metaclass-call-bypassed', 'custom metaclass __call__ not run')
+
+    # ---- the same oracles once more, after the registry's versions (scoped ones too) were built and used, and inside an active scope
+    if api in ('register', 'external'):
+      ctx.bucket('recheck:after-registry-use')
+      if kind not in UNSUBCLASSABLE:
+        try:
+          got = extract(call(gin.get_configurable('sc/ope/' + full)))
+          ctx.check(got == spec.expect(v_scoped), 'registry-version-not-injected', '%s/%s via a scoped selector received %r' % (kind, api, got))
+        except Exception as e:  # pylint: disable=broad-except
+          ctx.check(False, 'registry-version-call-failed', '%s/%s via a scoped selector raised %s: %s' % (kind, api, type(e).__name__, str(e)[:200]))
+      if not spec.shared:
+        ctx.check(snap_equal(before, snapshot(orig, is_class)), 'registration-altered-original',
+                  'using the registry versions (selector, scoped selector, reference) of a %s registered by %s altered the original: %r -> %r' % (
+                      kind, api, before, snapshot(orig, is_class)))
+      direct = extract(call(orig))
+      ctx.check(direct == spec.direct, 'direct-call-received-injected-value',
+                'direct call of the original %s after its registry versions were used saw %r' % (kind, direct))
+      ctx.bucket('recheck:inside-active-scope')
+      with gin.config_scope('sc/ope'):
+        direct = extract(call(orig))
+        inside = extract(call(conf))
+      ctx.check(direct == spec.direct, 'direct-call-received-injected-value',
+                'direct call of the original %s inside the active scope sc/ope (which has a binding) saw %r' % (kind, direct))
+      ctx.check(inside == spec.expect(v_scoped), 'registry-version-not-injected',
+                'the registry version of a %s called inside the active scope sc/ope received %r, bound value %r' % (kind, inside, spec.expect(v_scoped)))
   elif is_class:
     inst = conf()
     ctx.check(isinstance(inst, orig) and type(inst) is orig, 'instance-type-not-exactly-original', 'cls-neither: %r' % type(inst))
     ctx.bucket('type-identity')
+    if kind not in UNSUBCLASSABLE:
+      ctx.bucket('scoped-class-version:metadata')
+      sver = gin.get_configurable('sc/ope/' + full)
+      ctx.check(class_version_ok(sver, orig), 'configurable-class-metadata', 'the scoped version of a %s class is %r' % (kind, sver))
+      ctx.check(type(sver()) is orig, 'instance-type-not-exactly-original', 'scoped cls-neither: %r' % type(sver()))
 
   # ---- two distinct callable objects that compare (and hash) equal are two objects: registering one does not make the other known
-  if kind == 'callable-instance' and n % 2 == 0:
+  if kind == 'callable-instance' and case.get('equal_callables', n % 2 == 0):
     ctx.bucket('kind:callable-instances-comparing-equal')
 
     class EqCallable:
@@ -336,7 +478,7 @@ def run_case(ctx, case):
     gin.clear_config()
 
   # ---- the same object registered once more under the same name (accepted, also outside interactive mode): lookups through the object keep working
-  if api in ('register', 'external') and kind not in ('cls-final', 'cls-meta-kwargs') and n % 3 == 0:
+  if api in ('register', 'external') and kind not in UNSUBCLASSABLE and param is not None and case.get('again', n % 3 == 0):
     ctx.bucket('history:same-object-registered-again')
     try:
       do_register(gin, api, case['form'], orig, name, module, explicit)
@@ -352,9 +494,9 @@ def run_case(ctx, case):
       ctx.check(False, 'registered-object-lost-after-registering-it-again', 'after %s the object is unknown to get_configurable/get_bindings: %s: %s' % (
           'registering the same object again under the same name' if again_ok else 'a refused second registration', type(e).__name__, str(e)[:200]))
     try:
-      gin.bind_parameter(full + '.' + param, 41)
-      got = extract(gin.get_configurable(orig)())
-      ctx.check(got == 41, 'registered-object-lost-after-registering-it-again', 'after the second registration a binding through %s delivered %r' % (full, got))
+      gin.bind_parameter(full + '.' + param, spec.vals[0])
+      got = extract(call(gin.get_configurable(orig)))
+      ctx.check(got == spec.expect(spec.vals[0]), 'registered-object-lost-after-registering-it-again', 'after the second registration a binding through %s delivered %r' % (full, got))
     except Exception as e:  # pylint: disable=broad-except
       ctx.check(False, 'registered-object-lost-after-registering-it-again', 'after the second registration binding/calling through %s raised %s: %s' % (full, type(e).__name__, str(e)[:200]))
     gin.clear_config()
@@ -445,65 +587,266 @@ def run_case(ctx, case):
         ctx.check(False, 'rejected-registration-left-inverse-entry', 'the rejected object is known to the registry')
       except ValueError:
         pass
+    reject_product(ctx, gin, case, rej, base, full)
 
   # ---- interactive mode
   im = case['interactive']
   if im and '.' in full:
-    ctx.bucket('interactive:' + im)
-    mod_, nm_ = full.rsplit('.', 1)
+    interactive_section(ctx, gin, case, im, base, full)
 
-    def repl(x=0):
-      return ('repl', x)
-    repl.__name__ = nm_
+  # ---- dynamic registration: config text naming an importable object registers it like gin.register does
+  if ENABLE_DYNAMIC_REGISTRATION and case.get('dynamic') and kind in DYNAMIC_KINDS:
+    dynamic_section(ctx, gin, kind, base)
 
-    def must_fail(label):
-      try:
-        gin.register(nm_, module=mod_)(repl)
-        ctx.check(False, 'reregistration-outside-interactive-mode', 're-registering %s %s was accepted' % (full, label))
-      except ValueError:
-        ctx.count('oracle_evals')
-    must_fail('before interactive mode')
+
+def make_target(tkind, tag):
+  """A fresh object no registration has seen: (target, is_class, selector of its registered method or None)."""
+  if tkind == 'function':
+    def target(x=0):
+      return x
+    target.__name__ = 'tf' + tag
+    return target, False, None
+  if tkind == 'class':
+    return make_original('cls-init', 'TC' + tag).orig, True, None
+  return make_original('cls-methods', 'TM' + tag).orig, True, 'vfc13mod.meth_TM' + tag
+
+
+def reject_product(ctx, gin, case, rej, base, full):
+  """Every rejection kind x (function, class, class with a registered method) x three APIs, outside or inside interactive mode.
+
+  "Without registering anything": the call raises, no name appears in the registry, the target stays unknown to the registry, a class target keeps
+  its constructor (gin.configurable replaces it on success) and its registered method keeps its selector (class registration renames it on success).
+  """
+  tkind = case.get('reject_target', 'function')
+  variant = case.get('reject_variant', 0)
+  inside = bool(case.get('reject_interactive')) and rej != 'different-object-same-name'   # the one rejection interactive mode waives
+  ctx.bucket('reject-target:' + tkind)
+  ctx.bucket('reject-cell:%s:%s:%s' % (rej, tkind, 'interactive' if inside else 'plain'))
+  if inside:
+    ctx.bucket('reject:inside-interactive-mode')
+  good = 'rp' + base
+  kw = {}
+  if rej == 'invalid-name':
+    nm, md = ['bad name', '1abc', 'a..b', 'a/b', '', 'abc\n'][variant % 6], ('c13' if variant % 2 else None)
+  elif rej == 'invalid-module':
+    nm, md = [good, 'pkg.' + good][variant % 2], ['bad module', 'a..b', '1x', 'mod\n', 'a.'][variant % 5]
+  elif rej == 'different-object-same-name':
+    md, nm = full.rsplit('.', 1) if '.' in full else (None, full)
+  elif rej == 'unknown-in-list':
+    nm, md = good, 'c13'
+    kw = [{'allowlist': ['nope']}, {'denylist': ['x', 'nope']}, {'allowlist': ('x', 'nope')}][variant % 3]
+  else:
+    nm, md = good, 'c13'
+    kw = {'allowlist': ['x'], 'denylist': ['x']}
+  would_be = (md + '.' + nm) if md else nm
+  if md is not None:
+    kw = dict(kw, module=md)
+  # one fresh target serves the three APIs: every rejected attempt must leave it as it was
+  target, t_is_class, msel = make_target(tkind, base)
+  t_before = snapshot(target, t_is_class)
+  mfn = target.__dict__[msel.rsplit('.', 1)[1]] if msel else None
+  for api in APIS:
+
+    def view():
+      reg = gin.config._REGISTRY
+      v = {'len': len(reg), 'method': msel and reg.get(msel) is not None and id(reg.get(msel).wrapped)}
+      if rej == 'different-object-same-name':
+        v['existing'] = reg.get(full) is not None and (id(reg.get(full).wrapped), id(reg.get(full).wrapper))
+      else:
+        try:
+          v['would-be'] = reg.get(would_be) is not None
+        except Exception:  # pylint: disable=broad-except
+          v['would-be'] = 'unresolvable'
+      if msel:
+        try:
+          v['renamed-method'] = reg.get(would_be + '.' + msel.rsplit('.', 1)[1]) is not None
+        except Exception:  # pylint: disable=broad-except
+          v['renamed-method'] = 'unresolvable'
+      return v
+    v_before = view()
+    accepted = False
     try:
-      gin.get_configurable('sc/ope/' + full)    # a scoped version exists before the name is re-registered
-      gin.parse_config('c13cons.v = @sc/ope/%s' % full)
-      _S['cons'].conf()
+      if inside:
+        with gin.config.interactive_mode():
+          if api == 'external':
+            gin.external_configurable(target, name=nm, **kw)
+          else:
+            getattr(gin, api)(nm, **kw)(target)
+      elif api == 'external':
+        gin.external_configurable(target, name=nm, **kw)
+      else:
+        getattr(gin, api)(nm, **kw)(target)
+      accepted = True
     except Exception:  # pylint: disable=broad-except
       pass
-    if im == 'context-manager':
-      with gin.config.interactive_mode():
-        gin.register(nm_, module=mod_)(repl)
-    elif im == 'enter-exit':
-      gin.enter_interactive_mode()
-      gin.register(nm_, module=mod_)(repl)
-      gin.exit_interactive_mode()
-    else:
+    where = ' inside interactive mode' if inside else ''
+    ctx.check(not accepted, 'bad-registration-accepted', 'gin.%s of a %s that must be rejected (%s: name %r, %r)%s succeeded' % (api, tkind, rej, nm, kw, where))
+    if accepted:
+      continue
+    ctx.check(snap_equal(t_before, snapshot(target, t_is_class)), 'registration-altered-original',
+              'a rejected gin.%s (%s)%s altered the %s it was given (for a class: its constructor was replaced)' % (api, rej, where, tkind))
+    v_after = view()
+    ctx.check(v_after == v_before, 'rejected-registration-changed-registry',
+              'a rejected gin.%s (%s) of a %s%s changed the registry: %r -> %r' % (api, rej, tkind, where, v_before, v_after))
+    try:
+      gin.get_configurable(target)
+      ctx.check(False, 'rejected-registration-left-inverse-entry', 'after a rejected gin.%s (%s)%s the %s is known to the registry' % (api, rej, where, tkind))
+    except ValueError:
+      ctx.count('oracle_evals')
+    if mfn is not None:
+      # the registered method is still reachable through its function and still bound under its own selector
       try:
-        with gin.config.interactive_mode():
-          gin.register(nm_, module=mod_)(repl)
-          raise KeyError('leave')
-      except KeyError:
-        pass
-    gin.clear_config()
-    ctx.check(gin.get_configurable(full)() == ('repl', 0), 'interactive-reregistration-not-effective',
-              'after re-registration in interactive mode %s still resolves to the old object' % full)
-    ctx.check(gin.get_configurable('sc/ope/' + full)() == ('repl', 0), 'interactive-reregistration-not-effective',
-              'after re-registration in interactive mode the scoped selector sc/ope/%s still resolves to the old object' % full)
+        gin.bind_parameter(msel + '.m', 5)
+        got = gin.get_configurable(mfn)(None)
+      except Exception as e:  # pylint: disable=broad-except
+        got = 'raised %s: %s' % (type(e).__name__, str(e)[:200])
+      ctx.check(got == ('meth', 5), 'rejected-registration-changed-registry',
+                'after a rejected gin.%s (%s)%s of its class the registered method, bound through %s, returned %r' % (api, rej, where, msel, got))
+  if inside:
+    gin.exit_interactive_mode()    # (already off on a correct tree) keep one case's leak from spreading
+
+
+def make_replacement(tkind, nm_, tag):
+  """A replacement object named nm_ and a predicate telling whether a call result came from it."""
+  if tkind == 'class':
+    def __init__(self, x=0):
+      self.x = x
+      self.tag = tag
+    cls = type(nm_, (), {'__init__': __init__, '__module__': 'vfc13repl', '__doc__': 'replacement'})
+    return cls, (lambda r: isinstance(r, cls) and r.tag == tag and r.x == 0)
+
+  def repl(x=0):
+    return (tag, x)
+  repl.__name__ = nm_
+  return repl, (lambda r: r == (tag, 0))
+
+
+def register_as(gin, api, obj, nm_, mod_):
+  if api == 'external':
+    return gin.external_configurable(obj, name=nm_, module=mod_)
+  return getattr(gin, api)(nm_, module=mod_)(obj)
+
+
+def interactive_section(ctx, gin, case, im, base, full):
+  ctx.bucket('interactive:' + im)
+  iapi = case.get('interactive_api', 'register')
+  itarget = case.get('interactive_target', 'function')
+  ctx.bucket('interactive-api:' + iapi)
+  ctx.bucket('interactive-target:' + itarget)
+  mod_, nm_ = full.rsplit('.', 1)
+  repl, from_repl = make_replacement(itarget, nm_, 'repl')
+  flip = case.get('reject_variant', 0)
+
+  def must_fail(label, tag, product=True):
+    # after the block: every API, alternating function / class candidates (all six combinations occur over the cases)
+    for k, api in enumerate(APIS if product else [iapi]):
+      for tkind in ([('function', 'class')[(k + flip) % 2]] if product else [itarget]):
+        cand, _ = make_replacement(tkind, nm_, tag)
+        c_before = snapshot(cand, tkind == 'class')
+        try:
+          register_as(gin, api, cand, nm_, mod_)
+          ctx.check(False, 'reregistration-outside-interactive-mode', 're-registering %s with another %s through gin.%s %s was accepted' % (full, tkind, api, label))
+        except Exception:  # pylint: disable=broad-except
+          ctx.count('oracle_evals')
+          ctx.check(snap_equal(c_before, snapshot(cand, tkind == 'class')), 'registration-altered-original',
+                    'a refused re-registration (gin.%s, %s) altered the %s it was given' % (api, label, tkind))
+          try:
+            gin.get_configurable(cand)
+            ctx.check(False, 'rejected-registration-left-inverse-entry', 'the %s rejected %s (gin.%s) is in the registry' % (tkind, label, api))
+          except ValueError:
+            pass
+  must_fail('before interactive mode', 'early', product=False)
+  try:
+    gin.get_configurable('sc/ope/' + full)    # a scoped version exists before the name is re-registered
     gin.parse_config('c13cons.v = @sc/ope/%s' % full)
     _S['cons'].conf()
-    ctx.check(probes.RECORDER.log[-1].received['v']() == ('repl', 0), 'interactive-reregistration-not-effective',
-              'after re-registration a scoped reference to %s still delivers the old object' % full)
-    gin.clear_config()
-
-    def repl2(x=0):
-      return ('repl2', x)
-    repl2.__name__ = nm_
-    repl = repl2
-    must_fail('after interactive mode ended (%s)' % im)
+  except Exception:  # pylint: disable=broad-except
+    pass
+  if im == 'context-manager':
+    with gin.config.interactive_mode():
+      register_as(gin, iapi, repl, nm_, mod_)
+  elif im == 'enter-exit':
+    gin.enter_interactive_mode()
+    register_as(gin, iapi, repl, nm_, mod_)
+    gin.exit_interactive_mode()
+  else:
+    exc = {'exit-by-exception': KeyError, 'exit-by-KeyboardInterrupt': KeyboardInterrupt, 'exit-by-SystemExit': SystemExit,
+           'exit-by-GeneratorExit': GeneratorExit}[im]
     try:
-      gin.get_configurable(repl2)
-      ctx.check(False, 'rejected-registration-left-inverse-entry', 'object rejected after interactive mode is in the registry')
-    except ValueError:
+      with gin.config.interactive_mode():
+        register_as(gin, iapi, repl, nm_, mod_)
+        raise exc('leave')
+    except exc:
       pass
+  gin.clear_config()
+  how = 'gin.%s of a %s in interactive mode (%s)' % (iapi, itarget, im)
+
+  def resolves_to_replacement(get):
+    try:
+      return from_repl(get()())
+    except Exception:  # pylint: disable=broad-except
+      return False     # (the old object, called without the arguments it needs)
+  ctx.check(resolves_to_replacement(lambda: gin.get_configurable(full)), 'interactive-reregistration-not-effective',
+            'after %s %s still resolves to the old object' % (how, full))
+  ctx.check(resolves_to_replacement(lambda: gin.get_configurable('sc/ope/' + full)), 'interactive-reregistration-not-effective',
+            'after %s the scoped selector sc/ope/%s still resolves to the old object' % (how, full))
+  gin.parse_config('c13cons.v = @sc/ope/%s' % full)
+  _S['cons'].conf()
+  ctx.check(resolves_to_replacement(lambda: probes.RECORDER.log[-1].received['v']), 'interactive-reregistration-not-effective',
+            'after %s a scoped reference to %s still delivers the old object' % (how, full))
+  gin.clear_config()
+  must_fail('after interactive mode ended (%s)' % im, 'late')
+  gin.exit_interactive_mode()    # (already off on a correct tree) keep one case's leak from spreading
+
+
+def dynamic_section(ctx, gin, kind, base):
+  """`import m` + `m.K.x = v` under dynamic registration registers m.K: K itself stays as it was and direct calls receive nothing."""
+  ctx.bucket('api:dynamic-registration')
+  ctx.bucket('dynamic-kind:' + kind)
+  nm = 'D' + base
+  spec = make_original(kind, nm)
+  orig, param, extract, is_class, _ = spec
+  before = snapshot(orig, is_class)
+  gin.clear_config()
+  sel = 'vfc13mod.' + nm
+  try:
+    gin.parse_config('from __gin__ import dynamic_registration\nimport vfc13mod\n%s.%s = 41\nsc/ope/%s.%s = 42\n' % (sel, param, sel, param))
+  except Exception as e:  # pylint: disable=broad-except
+    ctx.check(False, 'registration-failed', 'dynamic registration of a %s through config text raised %s: %s' % (kind, type(e).__name__, str(e)[:200]))
+    gin.clear_config()
+    return
+
+  def observe(when):
+    ctx.check(snap_equal(before, snapshot(orig, is_class)), 'registration-altered-original',
+              'dynamic registration (config text `%s.%s = 41`) altered the %s %s: %r -> %r' % (sel, param, kind, when, before, snapshot(orig, is_class)))
+    direct = extract(spec.call(orig))
+    ctx.check(direct == 0, 'direct-call-received-injected-value', 'direct call of a dynamically registered %s %s saw %r' % (kind, when, direct))
+  observe('right after parsing')
+  versions = []
+  try:
+    versions.append(('the original object', gin.get_configurable(orig), 41))
+    versions.append(('a scoped selector', gin.get_configurable('sc/ope/' + sel), 42))
+    gin.parse_config('c13cons.v = @%s' % sel)
+    _S['cons'].conf()
+    versions.append(('a reference', probes.RECORDER.log[-1].received['v'], 41))
+  except Exception as e:  # pylint: disable=broad-except
+    ctx.check(False, 'registry-version-call-failed', 'dynamically registered %s: looking up its registry version raised %s: %s' % (kind, type(e).__name__, str(e)[:200]))
+  for label, ver, want in versions:
+    try:
+      res = spec.call(ver)
+    except Exception as e:  # pylint: disable=broad-except
+      ctx.check(False, 'registry-version-call-failed', 'dynamically registered %s via %s raised %s: %s' % (kind, label, type(e).__name__, str(e)[:200]))
+      continue
+    ctx.check(extract(res) == want, 'registry-version-not-injected', 'dynamically registered %s via %s received %r, bound value %r' % (kind, label, extract(res), want))
+    if is_class:
+      ctx.check(class_version_ok(ver, orig), 'configurable-class-metadata', 'dynamically registered %s: the version reached via %s is %r' % (kind, label, ver))
+      ctx.check(isinstance(res, orig), 'instance-not-of-original-class', 'dynamically registered %s via %s built a %r' % (kind, label, type(res)))
+      if kind != 'cls-methods':
+        ctx.check(type(res) is orig, 'instance-type-not-exactly-original', 'dynamically registered %s via %s: type(instance) is %r' % (kind, label, type(res)))
+  observe('after its registry versions were used')
+  with gin.config_scope('sc/ope'):
+    observe('inside the active scope sc/ope')
+  gin.clear_config()
 
 
 def registry_view(gin, full, base):
@@ -517,10 +860,13 @@ def registry_view(gin, full, base):
   return view
 
 
-LEVEL_TEXT = ('Runtime monitor over the product (15 callable/class shapes x 3 registration APIs x forms x name/module overrides x 6 access paths): '
-              'identity/attribute snapshots of the original around registration, direct vs registry calls under root and scoped bindings, metadata and '
-              'signature comparison, isinstance/issubclass/type identity, pickle round trip, registry views around rejected registrations and around '
-              'interactive-mode blocks left normally or by exception.')
+LEVEL_TEXT = ('Runtime monitor over the product (21 callable/class shapes x 3 registration APIs (+ config text under dynamic registration) x forms x '
+              'name/module overrides x 6 access paths): '
+              'identity/attribute snapshots of the original around registration and again after the registry versions were used, direct vs registry '
+              'calls under root and scoped bindings (also inside an active scope), metadata and '
+              'signature comparison (builtins, slot wrappers, callable instances, partials too), isinstance/issubclass/type identity of every class '
+              'version reached, pickle round trip, registry views around rejected registrations (5 kinds x 3 targets x 3 APIs, outside and inside '
+              'interactive mode) and around interactive-mode blocks left normally or by Exception / KeyboardInterrupt / SystemExit / GeneratorExit.')
 LEVEL_NOTE = 'Trusted: the per-shape source templates in this file. Only the shapes listed are covered; each case uses fresh names (the registry is append-only).'
 TECHNIQUE = 'runtime differential monitor (original vs registry version) over a product of callable shapes, APIs and access paths'
 DESIGN_REF = 'DESIGN.md section 4, C13'
